@@ -581,8 +581,11 @@ pub fn gen_txv(seed: u64, n: usize, out: &mut Out) -> Vec<String> {
         }
     }
     // random: 1..3 mutations stacked, plus random field noise
+    let late: Vec<SpecId> = specs.iter().cloned().filter(|s| ge(*s, SpecId::LONDON)).collect();
     for _ in 0..n {
-        let s = *rng.pick(&specs);
+        // half of the random cases on London or later (where most rules live)
+        let s = if rng.chance(1, 2) { *rng.pick(&late) } else { *rng.pick(&specs) };
+        out.count(&format!("random-spec:{}", spec_name(s)));
         let mut r = valid_base(s, rng.next());
         let m = rng.range(1, 3);
         for _ in 0..m {
